@@ -1,10 +1,321 @@
 //! Deterministic thread scheduler driven by the crate's schedule points
-//! (filled in with the C18 work).
+//! (feature `verif`). Managed threads park at every point; the scheduler
+//! releases exactly one of them at a time, following a schedule produced by
+//! TLC (a list of thread ids) or a seeded random choice, and logs the order
+//! of releases. Events are logged while the released thread is the only one
+//! running, so the log is a real linearization of the shared-state accesses.
+//!
+//! A point whose id ends in '!' is log-only (the thread does not park).
+
+use std::{
+  cell::Cell,
+  collections::HashMap,
+  sync::{Arc, Condvar, Mutex},
+  time::{Duration, Instant},
+};
+
+use rand::{rngs::StdRng, Rng, SeedableRng};
+use serde_json::{json, Value};
+
+use crate::{build::Val, exec::Machine};
+
+#[derive(Clone, Debug, PartialEq)]
+enum Status {
+  Running,
+  /// parked at (id, obj, arg)
+  Parked(&'static str, usize, usize),
+  /// released but did not reach a point in time: waiting for a real lock
+  Blocked,
+  Done,
+}
+
+struct Inner {
+  active: bool,
+  status: Vec<Status>,
+  turn: Option<usize>,
+  log: Vec<Value>,
+  objs: HashMap<usize, usize>,
+  idents: HashMap<usize, usize>,
+  /// (object, shard) -> holder
+  held: HashMap<(usize, usize), usize>,
+}
+
+struct Sched {
+  m: Mutex<Inner>,
+  cv: Condvar,
+}
+
+static SCHED: std::sync::OnceLock<Arc<Sched>> = std::sync::OnceLock::new();
+
+thread_local! {
+  static TID: Cell<Option<usize>> = const { Cell::new(None) };
+}
+
+fn sched() -> &'static Arc<Sched> {
+  SCHED.get_or_init(|| {
+    Arc::new(Sched {
+      m: Mutex::new(Inner {
+        active: false,
+        status: vec![],
+        turn: None,
+        log: vec![],
+        objs: HashMap::new(),
+        idents: HashMap::new(),
+        held: HashMap::new(),
+      }),
+      cv: Condvar::new(),
+    })
+  })
+}
+
+fn decode(inner: &mut Inner, id: &str, obj: usize, arg: usize) -> Value {
+  let n = inner.objs.len();
+  let o = *inner.objs.entry(obj).or_insert(n);
+  if id.starts_with("cached.") {
+    let key = arg & 3;
+    let ident_raw = (arg >> 2) & ((1usize << 48) - 1);
+    let shard = arg >> 50;
+    let ident = match ident_raw {
+      0 => 0,
+      1 => 1,
+      p => {
+        let k = inner.idents.len() + 2;
+        *inner.idents.entry(p).or_insert(k)
+      }
+    };
+    json!({"obj": o, "key": key, "ident": ident, "shard": shard})
+  } else {
+    json!({"obj": o, "arg": arg})
+  }
+}
 
 /// Called from the crate at every schedule point.
-pub fn on_point(_id: &'static str, _obj: usize, _arg: usize) {}
+pub fn on_point(id: &'static str, obj: usize, arg: usize) {
+  let Some(tid) = TID.with(|t| t.get()) else {
+    return;
+  };
+  let s = sched();
+  let mut g = s.m.lock().unwrap();
+  if !g.active {
+    return;
+  }
+  if id.ends_with('!') {
+    let mut ev = decode(&mut g, id, obj, arg);
+    ev["op"] = json!("ev");
+    ev["t"] = json!(tid);
+    ev["id"] = json!(id);
+    track_locks(&mut g, tid, id, &ev);
+    g.log.push(ev);
+    return;
+  }
+  if matches!(id, "cached.stream.occupied" | "cached.stream.vacant") {
+    // the entry lock of this shard is ours from here to `released!`
+    let ev = decode(&mut g, id, obj, arg);
+    let key = (
+      ev["obj"].as_u64().unwrap_or(0) as usize,
+      ev["shard"].as_u64().unwrap_or(0) as usize,
+    );
+    g.held.insert(key, tid);
+  }
+  g.status[tid] = Status::Parked(id, obj, arg);
+  s.cv.notify_all();
+  while g.turn != Some(tid) {
+    g = s.cv.wait(g).unwrap();
+  }
+  g.turn = None;
+  g.status[tid] = Status::Running;
+  let mut ev = decode(&mut g, id, obj, arg);
+  ev["op"] = json!("ev");
+  ev["t"] = json!(tid);
+  ev["id"] = json!(id);
+  // the identity seen when the thread arrived may be stale by now; events
+  // that report what the access itself saw are the log-only ones
+  track_locks(&mut g, tid, id, &ev);
+  g.log.push(ev);
+}
+
+fn track_locks(g: &mut Inner, tid: usize, id: &str, ev: &Value) {
+  let key = (
+    ev["obj"].as_u64().unwrap_or(0) as usize,
+    ev["shard"].as_u64().unwrap_or(0) as usize,
+  );
+  match id {
+    // released from the point right after the entry lock was taken
+    "cached.stream.occupied" | "cached.stream.vacant" => {}
+    "cached.stream.released!" => {
+      if g.held.get(&key) == Some(&tid) {
+        g.held.remove(&key);
+      }
+    }
+    _ => {}
+  }
+}
+
+fn log_ret(tid: usize, rec: Value) {
+  let s = sched();
+  let mut g = s.m.lock().unwrap();
+  let mut rec = rec;
+  rec["tid"] = json!(tid);
+  g.log.push(rec);
+}
+
+fn finish(tid: usize) {
+  let s = sched();
+  let mut g = s.m.lock().unwrap();
+  g.status[tid] = Status::Done;
+  s.cv.notify_all();
+}
+
+/// Would releasing this parked thread run into a shard lock somebody holds?
+fn would_block(g: &Inner, tid: usize) -> bool {
+  if let Status::Parked(id, obj, arg) = &g.status[tid] {
+    if matches!(*id, "cached.stream.entry" | "cached.map.get" | "cached.map.insert") {
+      if let Some(o) = g.objs.get(obj) {
+        let shard = arg >> 50;
+        if let Some(h) = g.held.get(&(*o, shard)) {
+          return *h != tid;
+        }
+      }
+    }
+  }
+  false
+}
+
+/// Runs one concurrent program. Returns the records (setup, events, returns).
+pub fn run_program(pid: u64, prog: &Value) -> Vec<Value> {
+  let mut recs = vec![];
+  let mut machine = Machine::new();
+  for step in prog["setup"].as_array().map(|a| a.as_slice()).unwrap_or(&[]) {
+    recs.push(machine.step(pid, step));
+  }
+  let shared: Arc<Vec<Option<Val>>> = Arc::new(std::mem::take(&mut machine.regs));
+  let threads: Vec<Vec<Value>> = prog["threads"]
+    .as_array()
+    .map(|a| a.iter().map(|t| t.as_array().cloned().unwrap_or_default()).collect())
+    .unwrap_or_default();
+  let n = threads.len();
+  let s = sched();
+  {
+    let mut g = s.m.lock().unwrap();
+    g.active = true;
+    g.status = vec![Status::Running; n];
+    g.turn = None;
+    g.log.clear();
+    g.objs.clear();
+    g.idents.clear();
+    g.held.clear();
+  }
+  let mut handles = vec![];
+  for (tid, ops) in threads.into_iter().enumerate() {
+    let shared = shared.clone();
+    handles.push(std::thread::spawn(move || {
+      TID.with(|t| t.set(Some(tid)));
+      let mut m = Machine::with_shared(shared);
+      for op in ops {
+        on_point("op.start", 0, 0);
+        let rec = m.step(pid, &op);
+        log_ret(tid, rec);
+      }
+      finish(tid);
+    }));
+  }
+  // the schedule: thread ids from TLC, then (or only) seeded random choices
+  let schedule: Vec<usize> = prog["schedule"]
+    .as_array()
+    .map(|a| a.iter().map(|x| x.as_u64().unwrap() as usize).collect())
+    .unwrap_or_default();
+  let mut rng = StdRng::seed_from_u64(prog["seed"].as_u64().unwrap_or(pid));
+  let mut next = 0usize;
+  let mut extra = 0usize;
+  let mut outcome = "completed";
+  let mut last_progress = Instant::now();
+  loop {
+    let mut g = s.m.lock().unwrap();
+    // wait until nobody is running (blocked threads do not count)
+    let deadline = Instant::now() + Duration::from_millis(150);
+    while g.status.iter().any(|st| *st == Status::Running) {
+      let now = Instant::now();
+      if now >= deadline {
+        for st in g.status.iter_mut() {
+          if *st == Status::Running {
+            *st = Status::Blocked;
+          }
+        }
+        break;
+      }
+      let (ng, _) = s.cv.wait_timeout(g, deadline - now).unwrap();
+      g = ng;
+    }
+    if g.status.iter().all(|st| *st == Status::Done) {
+      break;
+    }
+    let parked: Vec<usize> = (0..n)
+      .filter(|t| matches!(g.status[*t], Status::Parked(..)))
+      .collect();
+    if parked.is_empty() {
+      // only blocked threads are left: give them time, then call it a deadlock
+      if last_progress.elapsed() > Duration::from_secs(5) {
+        outcome = "deadlock";
+        break;
+      }
+      drop(g);
+      std::thread::sleep(Duration::from_millis(20));
+      let mut g = s.m.lock().unwrap();
+      // a blocked thread that has parked meanwhile shows up as Parked
+      for st in g.status.iter_mut() {
+        if *st == Status::Blocked {
+          // still blocked or running towards a point; keep waiting
+        }
+      }
+      continue;
+    }
+    last_progress = Instant::now();
+    let choice = if next < schedule.len() {
+      let t = schedule[next];
+      next += 1;
+      if !parked.contains(&t) {
+        g.log.push(json!({"op": "sched_note", "note": "scheduled thread not parked", "t": t, "at": next - 1}));
+        outcome = "diverged";
+        // fall back to any parked thread so that the program completes
+        parked[0]
+      } else {
+        t
+      }
+    } else {
+      extra += 1;
+      let free: Vec<usize> = parked.iter().copied().filter(|t| !would_block(&g, *t)).collect();
+      let pool = if free.is_empty() { &parked } else { &free };
+      pool[rng.gen_range(0..pool.len())]
+    };
+    g.status[choice] = Status::Running;
+    g.turn = Some(choice);
+    s.cv.notify_all();
+  }
+  let deadlocked = outcome == "deadlock";
+  if !deadlocked {
+    for h in handles {
+      let _ = h.join();
+    }
+  }
+  let mut g = s.m.lock().unwrap();
+  g.active = false;
+  for mut ev in g.log.drain(..) {
+    ev["pid"] = json!(pid);
+    if ev.get("oc").is_none() {
+      ev["oc"] = json!("ok");
+    }
+    recs.push(ev);
+  }
+  recs.push(json!({"op": "conc_end", "pid": pid, "oc": "ok", "outcome": outcome,
+                   "scheduled": next, "schedule_len": schedule.len(), "extra": extra}));
+  if deadlocked {
+    // threads are stuck inside the crate: leave them and let the parent see it
+    recs.push(json!({"op": "died", "pid": pid, "oc": "hang", "status": "deadlock"}));
+  }
+  recs
+}
 
 pub fn run(_schedules: &str, _out: &str) {
-  eprintln!("sched: not built yet");
+  eprintln!("use `rsv exec` with programs of kind \"conc\"");
   std::process::exit(2);
 }
